@@ -1,5 +1,5 @@
 use mcv::engine::*;
-use mcv::{engine, props};
+use mcv::props;
 use std::time::Instant;
 
 fn run_property<P: Property>(p: &P, tier: Tier) -> i32 {
@@ -148,6 +148,57 @@ fn main() {
             }
             println!("{} seed files written to {}", n, dir);
             0
+        }
+        "fuzz-gen-corpus" => {
+            // mcv fuzz-gen-corpus <ID> <dir> [n]: random choice strings for the generic target (pure function of VERIF_SEED)
+            let dir = args[3].clone();
+            std::fs::create_dir_all(&dir).expect("create corpus dir");
+            let n: u64 = args.get(4).and_then(|s| s.parse().ok()).unwrap_or(96);
+            let seed: u64 = std::env::var("VERIF_SEED").ok().and_then(|s| s.parse().ok()).unwrap_or(20260926);
+            for i in 0..n {
+                let len = [256usize, 1024, 4096][(i % 3) as usize];
+                let mut v = Vec::with_capacity(len);
+                let mut k = 0u64;
+                while v.len() < len {
+                    v.extend_from_slice(&fnv64(&[&seed.to_le_bytes(), args[2].as_bytes(), b"gen-corpus", &i.to_le_bytes(), &k.to_le_bytes()]).to_le_bytes());
+                    k += 1;
+                }
+                std::fs::write(format!("{}/seed-{}", dir, i), v).unwrap();
+            }
+            println!("{} seed files written to {}", n, dir);
+            0
+        }
+        "defwords" => {
+            let mut m: std::collections::BTreeMap<(String, String, bool), usize> = Default::default();
+            for w in mcv::gen::definition_words() {
+                *m.entry((w.file.replace("/repo/Rules/", ""), w.set.clone(), w.rare)).or_default() += 1;
+            }
+            for ((f, s, r), n) in m {
+                println!("{:45} {:40} rare={} n={}", f, s, r, n);
+            }
+            0
+        }
+        "fuzz-gen-show" => {
+            // mcv fuzz-gen-show <ID> <file>: the case a saved input of the generic target selects
+            let data = std::fs::read(&args[3]).expect("read input");
+            println!("{}", mcv::fuzzing::case_json_from_bytes(&args[2], &data));
+            0
+        }
+        "fuzz-gen-replay" => {
+            // mcv fuzz-gen-replay <ID> <file>...: evaluate saved inputs of the generic target with the stable build
+            let mut bad = 0;
+            for f in &args[3..] {
+                let Ok(data) = std::fs::read(f) else { continue };
+                for (sig, detail) in mcv::fuzzing::evaluate_bytes(&args[2], &data) {
+                    bad += 1;
+                    println!("VIOLATION property={} replay={}\n  signature: {}\n  detail: {}", args[2], f, sig, detail.chars().take(600).collect::<String>().replace('\n', "\n    "));
+                }
+            }
+            if bad > 0 {
+                1
+            } else {
+                0
+            }
         }
         "fuzz-replay" => {
             // mcv fuzz-replay <C02|C08|C19> <file>...: evaluate saved fuzzer inputs with the stable build
